@@ -50,7 +50,7 @@ pub fn tokens(t: &str) -> Vec<(usize, usize)> {
 
 pub fn prov(s: &Spec) -> Vec<Prov> {
   match s {
-    Spec::Raw(t) | Spec::RawStr(t) => vec![Prov::Raw; t.len()],
+    Spec::Raw(t) | Spec::RawStr(t) | Spec::Custom { text: t } => vec![Prov::Raw; t.len()],
     Spec::RawBuf(b) | Spec::RawBytes(b) => vec![Prov::Raw; String::from_utf8_lossy(b).len()],
     Spec::Orig { text, name } => {
       let (pos, _) = positions(text);
